@@ -738,5 +738,62 @@ def generate(api):
                               r"\s*&paint,\s*tiny_skia::Transform::identity\(\),\s*None,?\s*\)", rg) is not None)))
     section('mask_shape', mask_shape, ('C15',), out_clip)
 
+
+    # ---------------------------------------------------------------- usvg parser/filter.rs convert(): the CSS filter-FUNCTION path (C16, own generated file)
+    out_fn = [api.HEADER, "From Coq Require Import String List.\nImport ListNotations.\nLocal Open Scope string_scope.\n"]
+
+    def css_functions():
+        src = strip_comments(api.rd('crates/usvg/src/parser/filter.rs'))
+        body = body_of(src, 'convert')
+        accesses = re.findall(r"\bcache\s*\.\s*(\w+)", body)
+        m = re.search(r"for\s+func\s+in\s+svgtypes::FilterValueListParser::from\(value\)\s*\{", body)
+        if not m:
+            raise Bad("convert: loop over the filter value list not found")
+        i, depth = m.end(), 1
+        while i < len(body) and depth:
+            depth += {'{': 1, '}': -1}.get(body[i], 0)
+            i += 1
+        loop = body[m.end() - 1:i]
+        ss = stmts(loop)
+        mm = re.search(r"\bmatch\s+func\s*\{", ss[-1]) if ss else None
+        if not mm or not ss[-1].lstrip().startswith('match func'):
+            raise Bad("convert: the loop does not end with `match func { .. }` (%d statements)" % len(ss))
+        arms_text = ss[-1][mm.end():]
+        cuts = [a.start() for a in re.finditer(r"svgtypes::FilterValue::", arms_text)] + [len(arms_text)]
+        arms = []
+        for a, b in zip(cuts, cuts[1:]):
+            t = arms_text[a:b]
+            name = re.match(r"svgtypes::FilterValue::(\w+)", t).group(1)
+            callee = [c for c in ('create_base_filter_func', 'convert_url') if c + '(' in t]
+            extra = sorted(set(re.findall(r"\b(continue|break|return)\b", t)) | ({'cache.'} if re.search(r"\bcache\s*\.", t) else set()))
+            arms.append((name, "+".join(callee + extra) or 'none'))
+        exits = re.findall(r"\b(continue|break)\b", "".join(ss[:-1])) + re.findall(r"\breturn\s+[^;]*", "".join(ss[:-1]))
+        mclo = re.search(r"let\s+create_base_filter_func\s*=\s*\|kind,\s*filters:\s*&mut\s+Vec<Arc<Filter>>,\s*cache:\s*&mut\s+converter::Cache\|\s*\{", body)
+        if not mclo:
+            raise Bad("convert: closure create_base_filter_func not found")
+        j, depth = mclo.end(), 1
+        while j < len(body) and depth:
+            depth += {'{': 1, '}': -1}.get(body[j], 0)
+            j += 1
+        clo = body[mclo.end():j]
+        own = (re.search(r"let\s+object_bbox\s*=\s*match\s+object_bbox\s*\{\s*Some\(v\)\s*=>\s*v,\s*None\s*=>\s*\{\s*log::warn!\(.*?\);\s*return;\s*\}\s*\}\s*;", clo, re.S) is not None
+               and re.search(r"rect\s*=\s*match\s+crate::checked_bbox_transform\(rect,\s*object_bbox\)\s*\{\s*Some\(v\)\s*=>\s*v,", clo) is not None
+               and re.search(r"filters\.push\(Arc::new\(Filter\s*\{\s*id:\s*cache\.gen_filter_id\(\),\s*rect,\s*primitives:\s*vec!\[Primitive\s*\{\s*rect,", clo) is not None
+               and len(re.findall(r"\bobject_bbox\b", clo)) == 3 and len(re.findall(r"filters\.\w+", clo)) == 1)
+        q = lambda t: '"%s"' % re.sub(r"\s+", " ", t).replace('"', "'")
+        return ("(* usvg parser/filter.rs :: convert: every access `cache.<x>` in the body, in order *)\n"
+                "Definition fn_cache_accesses : list string := [%s].\n"
+                "(* per arm of `match func`: what handles it (+ any continue / break / return / direct cache access inside the arm) *)\n"
+                "Definition fn_arm_callees : list (string * string) := [%s].\n"
+                "(* statements of the loop body before / including `match func`, and the early exits among them *)\n"
+                "Definition fn_loop_statements : nat := %d%%nat.\n"
+                "Definition fn_loop_exits : list string := [%s].\n"
+                "(* the closure: bbox = the caller's object_bbox or skip; rect = checked_bbox_transform(rect, object_bbox); pushed as a fresh Filter { id: cache.gen_filter_id(), rect, .. } *)\n"
+                "Definition fn_region_from_own_bbox : bool := %s.\n"
+                % ("; ".join(q("cache." + a) for a in accesses), "; ".join("(%s, %s)" % (q(n), q(c)) for n, c in arms), len(ss),
+                   "; ".join(q(e) for e in exits), 'true' if own else 'false'))
+    section('css_function_filters', css_functions, ('C16',), out_fn)
+
+    api.write_gen('FilterFuncs.v', "\n".join(out_fn))
     api.write_gen('PixelTables.v', "\n".join(out))
     api.write_gen('ClipTables.v', "\n".join(out_clip))
